@@ -992,6 +992,16 @@ def en(bqm, x):
     return F(bqm.offset) + sum(F(bqm.get_linear(v)) * x[v] for v in bqm.variables) + sum(F(q) * x[u] * x[v] for u, v, q in bqm.iter_quadratic())
 def pvars(P, extra=()):
     return sorted({v for t in P for v in t} | set(extra), key=repr)
+def conv(P, binary):
+    # the same function in the other vartype, from the definition: x = (1 + s)/2  resp.  s = 2x - 1, product expanded over all subsets
+    Q = {}
+    for t, b in P.items():
+        t = sorted(t, key=repr)
+        for k in range(len(t) + 1):
+            for S in itertools.combinations(t, k):
+                c = b / F(2) ** len(t) if binary else b * F(2) ** len(S) * (-1) ** (len(t) - len(S))
+                Q[frozenset(S)] = Q.get(frozenset(S), F(0)) + c
+    return Q
 def reads(poly, P):
     # every read accessor of the polynomial object against the mirror P
     assert {t: F(b) for t, b in poly.items()} == P, ("items", dict(poly.items()), P)
@@ -1004,6 +1014,20 @@ def reads(poly, P):
         x = {v: dom[(i * 7 + k * 3 + (i * k) % 2) % 2] for i, v in enumerate(vs)}
         assert F(float(poly.energy(x))) == pe(P, x), ("energy", x, poly.energy(x), pe(P, x))
     assert poly == dimod.BinaryPolynomial({t: float(b) for t, b in P.items()}, poly.vartype), "__eq__"
+    # objects reached from it: copy, the conversions, the hising / hubo forms (each must reflect the CURRENT terms)
+    cp = poly.copy()
+    assert cp is not poly and cp == poly and not (cp != poly) and {t: F(b) for t, b in cp.items()} == P, ("copy", dict(cp.items()))
+    assert isinstance(repr(poly), str)
+    binary = poly.vartype is dimod.BINARY
+    other = poly.to_spin() if binary else poly.to_binary()
+    keep = poly.to_binary() if binary else poly.to_spin()
+    assert other.vartype is (dimod.SPIN if binary else dimod.BINARY) and keep.vartype is poly.vartype and keep == poly, "to_spin / to_binary vartype"
+    Q = conv(P, binary)
+    assert {t: F(b) for t, b in other.items() if b} == {t: b for t, b in Q.items() if b}, ("to_spin / to_binary", dict(other.items()), Q)
+    h, J, off = poly.to_hising()
+    assert dimod.BinaryPolynomial.from_hising(h, J, off) == (other if binary else poly), ("to_hising", h, J, off)
+    H, off2 = poly.to_hubo()
+    assert dimod.BinaryPolynomial.from_hubo(H, off2) == (poly if binary else other), ("to_hubo", H, off2)
 def exact_red(red, cons, P):
     vs = pvars(P); dom_ = DOM
     assert all(len(t) <= 2 for t, _ in red), "degree > 2"
@@ -1016,9 +1040,9 @@ def exact_red(red, cons, P):
         for pair, p in cons:
             u, v = pair; x[p] = x[u] * x[v]
         assert pe(R, x) == pe(P, x), ("reduced energy on a consistent assignment", x, pe(R, x), pe(P, x))
-def exact_bqm(bqm, P, given=None):
+def exact_bqm(bqm, P, given=None, dom=None):
     # min over the spin auxiliaries == polynomial (+ the given model) at every consistent assignment
-    info = bqm.info["reduction"]; dom_ = DOM
+    info = bqm.info["reduction"]; dom_ = dom or DOM
     prods = [d["product"] for d in info.values()]; auxs = [d["auxiliary"] for d in info.values() if "auxiliary" in d]
     vs = pvars(P, given.variables if given is not None else ())
     assert set(bqm.variables) >= set(vs), ("a variable is missing from the quadratic model", set(vs) - set(bqm.variables))
@@ -1240,7 +1264,8 @@ def history_case(ctx, r, lines, checks, directed=None):
         nonlocal given
         nprod = sum(max(0, len(t) - 2) for t in ref)
         nv = len({v for t in ref for v in t})
-        ops = ['reduce', 'mq', 'mq', 'mq-vt']
+        ops = ['reduce', 'mq', 'mq', 'mq-vt', 'mq-copy']
+        if nv + 2 * sum(2 ** max(0, len(t) - 2) - 1 for t in ref) <= 10 and max((len(t) for t in ref), default=0) <= 4: ops += ['mq-converted']
         if nv + nprod <= 9: ops += ['cqm']
         if nv + 2 * nprod <= 11: ops += ['hoc', 'hoc']
         if nv + 2 * nprod <= 9: ops += ['mq-given']
@@ -1257,6 +1282,8 @@ def history_case(ctx, r, lines, checks, directed=None):
         site, check = {'reduce': ('reduce_binary_polynomial', 'red, cons = dimod.reduce_binary_polynomial(poly)\nexact_red(red, cons, P)'),
                        'mq': ('make_quadratic', f'bqm = dimod.make_quadratic(poly, {strength!r}, vt)\nexact_bqm(bqm, P)'),
                        'mq-vt': ('make_quadratic', f'bqm = dimod.make_quadratic(poly, {strength!r}, {"dimod." + vt if r.random() < .5 else repr(set(dom))})\nexact_bqm(bqm, P)'),
+                       'mq-copy': ('make_quadratic', f'bqm = dimod.make_quadratic(poly.copy(), {strength!r}, vt)\nexact_bqm(bqm, P)'),
+                       'mq-converted': ('make_quadratic', f'other = poly.to_spin() if poly.vartype is dimod.BINARY else poly.to_binary()\nbqm = dimod.make_quadratic(other, {strength!r}, other.vartype)\nexact_bqm(bqm, conv(P, poly.vartype is dimod.BINARY), dom=(-1, 1) if poly.vartype is dimod.BINARY else (0, 1))'),
                        'mq-given': ('make_quadratic', None), 'cqm': ('make_quadratic_cqm', 'cqm = dimod.make_quadratic_cqm(poly)\nexact_cqm(cqm, P)'),
                        'hoc': ('HigherOrderComposite.sample_poly', f'child = Rec()\nss = dimod.HigherOrderComposite(child).sample_poly(poly, penalty_strength={strength!r}, keep_penalty_variables={r.random() < .5}, discard_unsatisfied={r.random() < .5})\nexact_hoc(ss, child, P)')}[op]
         if op == 'mq-given':
